@@ -6,17 +6,17 @@
     OnLost / CancelWrite / STOP_SENDING / getControlFrame / RESET_STREAM acked+lost /
     MAX_STREAM_DATA / MAX_DATA / SetReliableBoundary / enableResetStreamAt / closeForShutdown);
     [frames_of (snd ..)] are the frames popStreamFrame returned, [W] is every byte the
-    application wrote. [late] = enableResetStreamAt() switched the extension on for a stream
-    that was already reset (only possible for streams opened before the handshake completed):
-    outside the theorems, see notes/C01.md.
+    application wrote. No hypothesis on the histories remains: the ghost flag [late] of round 2
+    (reliable size raised on an already reset stream) can no longer be set (lemma late_never).
     The model mirrors the code WITH the repairs fixes/C01-write-buffered-after-reset.patch,
-    fixes/C01-fin-on-truncated-frame.patch and fixes/C04-set-reliable-boundary-after-reset-panic.patch;
+    fixes/C01-fin-on-truncated-frame.patch, fixes/C04-set-reliable-boundary-after-reset-panic.patch and
+    fixes/C01-enable-reset-stream-at-after-reset.patch;
     the witnesses that refuted the corresponding statements on the unrepaired code are kept below as
     regression examples. *)
 From Coq Require Import List ZArith Bool.
 From V Require Import Gen.Params Lib.Hex SendStream.Model SendStream.ProofsBase SendStream.ProofsInv
-  SendStream.ProofsCov SendStream.ProofsOut SendStream.ProofsFin SendStream.ProofsCnt SendStream.Theorems StreamE2E.Model StreamE2E.Compose
-  StreamE2E.DgModel StreamE2E.DgProofs.
+  SendStream.ProofsCov SendStream.ProofsOut SendStream.ProofsFin SendStream.ProofsCnt SendStream.ProofsDone SendStream.Theorems StreamE2E.Model StreamE2E.Compose
+  StreamE2E.DgModel StreamE2E.DgProofs StreamE2E.PackModel StreamE2E.PackProofs.
 Import ListNotations.
 Open Scope Z_scope.
 
@@ -28,13 +28,12 @@ Theorem C01_sender_frames_consistent :
   forall (sid0 : Z) (rsa : bool) (swin cwin : Z) (ops : list op),
   let s := fst (run (init sid0 rsa swin cwin) ops) in
   let E := frames_of (snd (run (init sid0 rsa swin cwin) ops)) in
-  late s = false ->
   (forall f, In f E ->
      0 <= f_off f /\ f_end f <= zlen (W s) /\
      f_data f = zfirstn (zlen (f_data f)) (zskipn (f_off f) (W s))) /\
   contiguous 0 (emittedNew s) (writeOffset s) /\
   (forall f, In f E -> f_fin f = true -> finishedWriting s = true /\ f_end f = zlen (W s)).
-Proof. exact sender_frames_consistent. Qed.
+Proof. exact sender_frames_consistent'. Qed.
 Print Assumptions C01_sender_frames_consistent.
 
 (** MaybeSplitOffFrame: the two pieces of a split retransmission cover exactly the byte range of
@@ -71,10 +70,28 @@ Print Assumptions C01_sender_coverage.
 Theorem C01_sender_no_panic :
   forall (sid0 : Z) (rsa : bool) (swin cwin : Z) (ops : list op),
   let s := fst (run (init sid0 rsa swin cwin) ops) in
-  late s = false -> (forall mb, In (OPop mb) ops -> mb <= ssMaxPacketBufferSize) ->
+  (forall mb, In (OPop mb) ops -> mb <= ssMaxPacketBufferSize) ->
   panicked s = false /\ numOut s = cnt_stream s + cnt_reset s /\ 0 <= numOut s.
-Proof. exact sender_no_panic. Qed.
+Proof. exact sender_no_panic'. Qed.
 Print Assumptions C01_sender_no_panic.
+
+(** Completion exactly once: over every history, the number of onStreamCompleted calls is 1 if the
+    stream is completed and 0 otherwise (never twice); and in every state that is not shut down,
+    "nothing in flight, queued or buffered, and the FIN was sent or the reset is known to the
+    application" implies that completion HAS been reported. (Refuted before the repair of write():
+    regression example C01_completion_witness_repaired.) *)
+Theorem C01_completion_exactly_once :
+  forall (sid0 : Z) (rsa : bool) (swin cwin : Z) (ops : list op),
+  let s := fst (run (init sid0 rsa swin cwin) ops) in
+  let outs := snd (run (init sid0 rsa swin cwin) ops) in
+  (forall mb, In (OPop mb) ops -> mb <= ssMaxPacketBufferSize) ->
+  done_calls outs = b2z (completed s) /\
+  (shutdown s = false ->
+   nfLen s = 0 /\ numOut s = 0 /\ retransQ s = [] /\ queuedReset s = None /\
+   (finSent s = true \/ (resetErr s <> None /\ (cancellationFlagged s = true \/ finishedWriting s = true))) ->
+   completed s = true).
+Proof. exact sender_completion_exactly_once'. Qed.
+Print Assumptions C01_completion_exactly_once.
 
 (** End to end: for every sender history and every delivery sequence drawn from the emitted frames
     (loss, duplication, reordering; reads of any sizes interleaved), the concatenation of the reads
@@ -85,10 +102,9 @@ Theorem C01_end_to_end_prefix :
   let E := frames_of (snd (run (init sid0 rsa swin cwin) ops)) in
   let rs := snd (rrun rcv0 evs) in
   (forall f, In f (delivered evs) -> In f E) ->
-  late s = false ->
   (exists rest, W s = all_read rs ++ rest) /\
   (saw_eof rs = true -> all_read rs = W s /\ finishedWriting s = true).
-Proof. exact end_to_end_prefix. Qed.
+Proof. exact end_to_end_prefix'. Qed.
 Print Assumptions C01_end_to_end_prefix.
 
 (** If what was delivered covers [0,|W|) and includes the FIN (the model's stand-in for
@@ -99,13 +115,12 @@ Theorem C01_complete_if_covered :
   let E := frames_of (snd (run (init sid0 rsa swin cwin) ops)) in
   (forall f, In f (delivered evs) -> In f E) ->
   forall n,
-  late s = false ->
   (forall i, 0 <= i < zlen (W s) -> exists f, In f (delivered evs) /\ f_off f <= i < f_end f) ->
   (exists f, In f (delivered evs) /\ f_fin f = true) ->
   zlen (W s) <= n ->
   let rs' := snd (rrun rcv0 (evs ++ [ERead n])) in
   all_read rs' = W s /\ saw_eof rs' = true /\ finishedWriting s = true.
-Proof. exact complete_if_covered_e2e. Qed.
+Proof. exact complete_if_covered_e2e'. Qed.
 Print Assumptions C01_complete_if_covered.
 
 (** Datagrams (model of /repo/datagram_queue.go, any op list of Add / parked-Add wake-up / Peek / Pop /
@@ -121,6 +136,34 @@ Theorem C01_datagram_at_most_once :
   zlen (sendQ q) <= dgMaxSendQueueLen /\ zlen (rcvQ q) <= dgMaxRcvQueueLen.
 Proof. exact datagram_at_most_once. Qed.
 Print Assumptions C01_datagram_at_most_once.
+
+(** Packet layer (model PackModel of packetPacker.composeNextPacket + the 1-RTT retransmission queue +
+    the datagram queue; any list of SendDatagram / compose / packet lost / packet acked; the frames
+    returned by the framer and the ack source are per-call oracles, the framer never returning
+    DATAGRAM frames): a DATAGRAM frame in a packet never carries a handler, the retransmission queue
+    never holds one, and the DATAGRAM payloads on the wire embed into the sequence popped from the
+    queue: every datagram accepted by SendDatagram is put into at most one packet, in order, whatever
+    is declared lost. *)
+Theorem C01_datagram_never_retransmitted :
+  forall ops : list pop_,
+  Forall wf_op ops ->
+  let s := fst (prun pk0 ops) in
+  let pkts := sent_of (combine ops (snd (prun pk0 ops))) in
+  (forall pkt f, In pkt pkts -> In f pkt -> is_dg (pf_kind f) = true -> pf_h f = 0) /\
+  (forall kl, In kl (p_retx s) -> is_dg (fst kl) = false) /\
+  subseq (dgs_of pkts) (gPopped (p_dq s)) /\
+  gAdded (p_dq s) = gPopped (p_dq s) ++ sendQ (p_dq s).
+Proof. exact datagram_never_retransmitted. Qed.
+Print Assumptions C01_datagram_never_retransmitted.
+
+(* a datagram shares its packet with a control frame from the framer; the packet is lost; only the
+   control frame comes back *)
+Example C01_datagram_never_retransmitted_nonvacuous :
+  let ops := [KDq (DAdd [7; 7]); KCompose 1200 true None true [mkPF (KCtrl 5) 3 0]; KLost 0; KCompose 1200 true None false []] in
+  Forall wf_op ops /\
+  snd (prun pk0 ops) = [[]; [mkPF (KDg [7; 7]) 4 0; mkPF (KCtrl 5) 3 1]; []; [mkPF (KCtrl 5) 3 1]].
+Proof. split; [repeat constructor|vm_compute; reflexivity]. Qed.
+Print Assumptions C01_datagram_never_retransmitted_nonvacuous.
 
 Example C01_datagram_nonvacuous :
   let r := drun dq0 [DHandle [1]; DHandle [2]; DAdd [9]; DReceive; DPeek; DPop; DReceive; DReceive] in
@@ -149,8 +192,8 @@ Print Assumptions C01_nonvacuous.
 Theorem C01_reset_stream_holds_no_buffer :
   forall (sid0 : Z) (rsa : bool) (swin cwin : Z) (ops : list op),
   let s := fst (run (init sid0 rsa swin cwin) ops) in
-  late s = false -> resetErr s <> None -> ro s = 0 -> nextFrame s = None.
-Proof. exact reset_stream_holds_no_buffer. Qed.
+  resetErr s <> None -> ro s = 0 -> nextFrame s = None.
+Proof. exact reset_stream_holds_no_buffer'. Qed.
 Print Assumptions C01_reset_stream_holds_no_buffer.
 
 Theorem C01_completion_fires :
@@ -197,3 +240,13 @@ Example C01_panic_witness_repaired :
   panicked (fst r) = false /\ late (fst r) = false.
 Proof. vm_compute. split; reflexivity. Qed.
 Print Assumptions C01_panic_witness_repaired.
+
+(**  4. enableResetStreamAt() on a stream that was reset while a Write was parked (0-RTT stream, the
+       extension only becomes known with the handshake): before the repair the next popStreamFrame
+       returned a frame [0,100) carrying bytes 100.. of what was written; now nothing is emitted. *)
+Example C01_late_enable_witness_repaired :
+  let r := run (init 0 false 1048576 1048576)
+    [OWrite (repeat 1 100); ORel; OWrite (repeat 2 1400); OCancel 3; OResume; OEnable; OPop 1452] in
+  frames_of (snd r) = [] /\ supportsRSA (fst r) = false.
+Proof. vm_compute. split; reflexivity. Qed.
+Print Assumptions C01_late_enable_witness_repaired.
